@@ -62,6 +62,10 @@ def histories(tier):
         out.append(('daqmx', [G.seg([(A, F.daqmx_enc(2, [(code, 0, 1, 0, 0)], [size + 2], 'fc', tname)),
                                      (B, F.daqmx_enc(2, [(3, 0, 0, 0, 0)], [size + 2]), [F._uprop('NI_Number_Of_Scales', 1)])], chunks=2),
                               G.seg([], meta=False, chunks=1)]))
+    if tier == 'thorough':
+        for n_, h_ in F.f6_files('thorough'):
+            if n_.endswith('/LE'):
+                out.append(('daqmx-f6' if n_.startswith('daqmx') else 'f6', h_))
     out.append(('daqmx-dl', [G.seg([(A, F.daqmx_enc(3, [(0, 0, 5, 0, 0)], [2], 'dl')), (B, F.daqmx_enc(3, [(0, 0, 9, 0, 0)], [2], 'dl'))], chunks=2),
                              G.seg([], meta=False)]))
     return out
